@@ -91,6 +91,7 @@ class SplineModel:
         if self.solve_fn is None:
             raise Broken("coefficient solve routine not found in " + cls)
         # definitional summaries
+        self.undefined_defs = {}   # member -> why its defining helper could not be summarised
         self.defs_scal = {}   # "time_powers_.h3_inv" -> (var, expr in var)
         self.defs_rows = {}   # "point_diffs_" -> (var, Vec in var)
         self.def_fns = {}
@@ -99,10 +100,22 @@ class SplineModel:
             if g is self.solve_fn or g["fid"] == self.handover[0]["fid"]:
                 continue
             I = Interp(F, cls)
+            I.field_assumptions[self.m_count] = {"positive": True}
             try:
                 I.run_body(g, {})
-            except Unsupported:
+            except Unsupported as ex:
+                # what this helper defines stays unknown: formulas that mention it cannot be expanded (see expand_vec)
+                for path, how, node in E.function_writes_local(g):
+                    if path[0] == "this" and len(path) >= 2:
+                        self.undefined_defs[path[1]] = "%s: %s" % (g["name"], ex)
                 continue
+            # whole-array definitions written as one element-wise expression (A = B.middleRows(..) - B.topRows(..))
+            for (tgt, start, cnt, val, line) in I.effects_ranges:
+                if sym.is_zero(start) and isinstance(val, Vec):
+                    kvar = sp.Symbol("k_def", integer=True, nonnegative=True)
+                    v2 = Vec({(a[0],) + tuple(sp.expand(sp.sympify(x).xreplace({sym.RSYM: kvar})) if not isinstance(x, str) else x for x in a[1:]): sp.sympify(c).xreplace({sym.RSYM: kvar}) for a, c in val.t.items()})
+                    self.defs_rows[tgt] = (kvar, v2, cnt)
+                    self.def_fns[tgt] = g
             for L in I.loops:
                 if L.lo != 0 or L.step != 1 or L.cond_op != "<":
                     continue
@@ -141,6 +154,8 @@ class SplineModel:
                            {tuple(x.subs(var, a[1]) if hasattr(x, "subs") else x for x in b): cb for b, cb in val.t.items()}.items()})
                 out = out.add(sub.scale(c))
             else:
+                if base in self.undefined_defs and base not in (self.m_points, self.m_durations):
+                    raise Broken("formula mentions %s, whose definition could not be summarised (%s)" % (base, self.undefined_defs[base]))
                 out = out.add(Vec({a: c}))
         return out
 
